@@ -4,6 +4,8 @@
 //   bin --replay file.json          (bypasses rapidcheck entirely)
 #include <rapidcheck.h>
 
+#include <chrono>
+
 #include "common.hpp"
 
 using namespace vf;
@@ -40,7 +42,7 @@ int main(int argc, char ** argv)
   for (int i = 1; i < argc; ++i) {
     const std::string a = argv[i];
     auto next           = [&] { return std::string(i + 1 < argc ? argv[++i] : ""); };
-    if (a == "--list" || a == "--rc") mode = a;
+    if (a == "--list" || a == "--rc" || a == "--loop") mode = a;
     else if (a == "--replay") { mode = a; replay = next(); }
     else if (a == "--cases") cases = std::stol(next());
     else if (a == "--seed") seed = std::stoull(next());
@@ -80,6 +82,25 @@ int main(int argc, char ** argv)
     return failed ? 1 : 0;
   }
 
+  if (mode == "--loop") {
+    // diagnostic only (memory / speed profiling of the checks without rapidcheck); never used by run.py
+    uint64_t x = seed * 0x9e3779b97f4a7c15ull + 1;
+    for (auto & c : registry()) {
+      if (!only.empty() && c.name.find(only) == std::string::npos) continue;
+      Stats st;
+      for (long i = 0; i < cases; ++i) {
+        std::vector<uint64_t> tape(static_cast<size_t>(c.tape_len));
+        for (auto & w : tape) {
+          x ^= x << 13; x ^= x >> 7; x ^= x << 17;
+          w = x;
+        }
+        run_case(c, st, tape, false);
+      }
+      std::cout << c.name << " evals=" << st.evals << " fails=" << st.fails.size() << "\n";
+    }
+    return 0;
+  }
+
   if (mode != "--rc") {
     std::cerr << "usage: --list | --rc ... | --replay file\n";
     return 2;
@@ -103,6 +124,7 @@ int main(int argc, char ** argv)
     const CheckDef & c = *sel[k];
     Stats & st         = stats[k];
     all.emplace_back(&c, &st);
+    const auto t_start = std::chrono::steady_clock::now();
 
     if (c.enumerate) {
       // exhaustive sub-space: every tape of the product space, no sampling
@@ -126,10 +148,12 @@ int main(int argc, char ** argv)
 
       std::vector<uint64_t> last_fail;
       uint64_t idx    = 0;
+      long shrink_evals = 0;  // shrinking is bounded: after 2500 evaluations further candidates "pass"
       const auto gen  = tape_gen(c.tape_len);
       const auto res  = rc::detail::checkTestable(
         [&] {
           const std::vector<uint64_t> tape = *gen;
+          if (!last_fail.empty() && ++shrink_evals > 2500) return;
           bc.put(c.name, tape);
           Ctx out;
           const bool want   = (idx < 3) || (idx % 503) == 0;
@@ -156,6 +180,7 @@ int main(int argc, char ** argv)
       }
     }
 
+    st.wall_s = std::chrono::duration<double>(std::chrono::steady_clock::now() - t_start).count();
     if (!st.fails.empty()) {
       ++nfail;
       std::string safe = c.name;
